@@ -365,6 +365,31 @@ impl<K: CacheKey + 'static> DiskCache<K> {
             .collect::<PathBuf>()
     }
 
+    /// Remove the index entry of `key` if `condition` still holds for it, keeping the
+    /// counters in step with the index; optionally delete its file as well.
+    ///
+    /// The entry is looked at again under the write lock because it may have been
+    /// replaced or removed since the caller read the index.
+    fn drop_entry_if(
+        &self,
+        key: &K,
+        delete_file: bool,
+        condition: impl Fn(&DiskCacheEntry) -> bool,
+    ) {
+        if let Ok(mut index) = self.index.write()
+            && index.get(key).is_some_and(condition)
+            && let Some(removed) = index.remove(key)
+        {
+            self.entry_count.fetch_sub(1, Ordering::Relaxed);
+            self.disk_usage
+                .fetch_sub(removed.size_bytes as u64, Ordering::Relaxed);
+
+            if delete_file {
+                let _ = fs::remove_file(&removed.file_path);
+            }
+        }
+    }
+
     /// Generate file path for a cache key
     fn get_file_path(&self, key: &K) -> PathBuf {
         let key_str = key.as_cache_key();
@@ -395,13 +420,16 @@ impl<K: CacheKey + 'static> DiskCache<K> {
         }
     }
 
-    /// Write data to disk file atomically
-    async fn write_file(
+    /// Write data to a synced temporary file next to `path` and return its name.
+    ///
+    /// The caller moves it into place while holding the index write lock, so that the
+    /// file and its index entry are published together.
+    async fn write_temp_file(
         &self,
         path: &Path,
         data: &Bytes,
         expires_at: Option<SystemTime>,
-    ) -> CacheResult<()> {
+    ) -> CacheResult<PathBuf> {
         let _permit = self
             .io_semaphore
             .acquire()
@@ -432,24 +460,17 @@ impl<K: CacheKey + 'static> DiskCache<K> {
         };
 
         let header = encode_file_header(expires_at);
-        if let Err(e) = Self::write_and_rename(file, &temp_path, path, &header, data) {
+        if let Err(e) = Self::write_and_sync(file, &header, data) {
             // Temporary names are unique: do not leave the file behind
             let _ = fs::remove_file(&temp_path);
             return Err(CacheError::Io(e));
         }
 
-        Ok(())
+        Ok(temp_path)
     }
 
-    /// Write `header` and `data` through `file` (opened at `temp_path`), sync it and
-    /// move it to `path`
-    fn write_and_rename(
-        mut file: File,
-        temp_path: &Path,
-        path: &Path,
-        header: &[u8],
-        data: &[u8],
-    ) -> std::io::Result<()> {
+    /// Write `header` and `data` through `file` and sync it
+    fn write_and_sync(mut file: File, header: &[u8], data: &[u8]) -> std::io::Result<()> {
         {
             vp_sched!("disk.write.data");
             file.write_all(header)?;
@@ -470,9 +491,7 @@ impl<K: CacheKey + 'static> DiskCache<K> {
         }
         drop(file);
 
-        // Atomic rename
-        vp_sched!("disk.write.rename");
-        fs::rename(temp_path, path)
+        Ok(())
     }
 
     /// Unique temporary file name next to `path`, ending in ".tmp" (such files
@@ -491,20 +510,30 @@ impl<K: CacheKey + 'static> DiskCache<K> {
 
     /// Read expiry and data from disk file
     async fn read_file(&self, path: &Path) -> CacheResult<(Option<SystemTime>, Bytes)> {
+        let file = File::open(path).map_err(CacheError::Io)?;
+        self.read_open_file(file, path).await
+    }
+
+    /// Read expiry and data through an already opened file (the version of the file the
+    /// caller looked up, even if the name has been given to another one since)
+    async fn read_open_file(
+        &self,
+        mut file: File,
+        path: &Path,
+    ) -> CacheResult<(Option<SystemTime>, Bytes)> {
         let _permit = self
             .io_semaphore
             .acquire()
             .await
             .map_err(|_| CacheError::Backend("Failed to acquire I/O semaphore".to_string()))?;
 
-        let mut file = File::open(path).map_err(CacheError::Io)?;
         let metadata = file.metadata().map_err(CacheError::Io)?;
         let file_size = metadata.len() as usize;
 
         // For large files, consider using memory-mapped I/O
         let raw = if file_size >= 16 * 1024 * 1024 {
             // Use memory-mapped file for large files
-            self.read_file_mmap(path, file_size)?
+            Self::read_file_mmap(&mut file, file_size)?
         } else {
             // Read directly for smaller files
             let mut buffer = Vec::with_capacity(file_size);
@@ -518,11 +547,9 @@ impl<K: CacheKey + 'static> DiskCache<K> {
     }
 
     /// Read large file using memory mapping
-    #[allow(clippy::unused_self)] // Kept for trait consistency
-    fn read_file_mmap(&self, path: &Path, expected_size: usize) -> CacheResult<Bytes> {
+    fn read_file_mmap(file: &mut File, expected_size: usize) -> CacheResult<Bytes> {
         // For now, fall back to regular read
         // In production, this would use memmap2 crate for memory-mapped I/O
-        let mut file = File::open(path).map_err(CacheError::Io)?;
         let mut buffer = Vec::with_capacity(expected_size);
         file.read_to_end(&mut buffer).map_err(CacheError::Io)?;
         Ok(Bytes::from(buffer))
@@ -612,37 +639,56 @@ impl<K: CacheKey + 'static> AsyncCache<K> for DiskCache<K> {
     async fn get(&self, key: &K) -> CacheResult<Option<Bytes>> {
         let start_time = Instant::now();
 
-        // Check index first
+        // Check index first. The entry's file is opened under the same read lock: put
+        // publishes a file and its entry together under the write lock, so the handle
+        // is this entry's own version of the file even if another task replaces or
+        // removes the key while it is being read.
         vp_sched!("disk.get.index");
         let entry_info = {
             let index = self
                 .index
                 .read()
                 .map_err(|_| CacheError::LockTimeout("index read lock".to_string()))?;
-            index.get(key).cloned()
+            index.get(key).cloned().map(|entry| {
+                let opened = File::open(&entry.file_path);
+                (entry, opened)
+            })
         };
 
-        if let Some(entry) = entry_info {
+        if let Some((entry, opened)) = entry_info {
+            // The entry as looked up, not whatever another task has stored since
+            let same_entry =
+                |e: &DiskCacheEntry| e.created_at == entry.created_at && e.size_bytes == entry.size_bytes;
+
             if entry.is_expired() {
                 // Remove expired entry
                 vp_sched!("disk.get.expired");
-                if let Ok(mut index) = self.index.write() {
-                    index.remove(key);
-                    self.entry_count.fetch_sub(1, Ordering::Relaxed);
-                    self.disk_usage
-                        .fetch_sub(entry.size_bytes as u64, Ordering::Relaxed);
-
-                    // Delete file
-                    let _ = fs::remove_file(&entry.file_path);
-                }
+                self.drop_entry_if(key, true, DiskCacheEntry::is_expired);
 
                 self.metrics.record_get(false, start_time.elapsed());
                 return Ok(None);
             }
 
+            let file = match opened {
+                Ok(file) => file,
+                Err(e) => {
+                    // The file is gone (a directory sweep of clear(), or removed from
+                    // outside): drop the entry; a missing file is a miss, not a failure
+                    vp_sched!("disk.get.readfail");
+                    self.drop_entry_if(key, false, same_entry);
+
+                    self.metrics.record_get(false, start_time.elapsed());
+                    return if e.kind() == std::io::ErrorKind::NotFound {
+                        Ok(None)
+                    } else {
+                        Err(CacheError::Io(e))
+                    };
+                }
+            };
+
             // Read file content
             vp_sched!("disk.get.read");
-            match self.read_file(&entry.file_path).await {
+            match self.read_open_file(file, &entry.file_path).await {
                 Ok((_, data)) => {
                     // Update access time
                     vp_sched!("disk.get.touch");
@@ -658,12 +704,7 @@ impl<K: CacheKey + 'static> AsyncCache<K> for DiskCache<K> {
                 Err(e) => {
                     // File read failed - remove from index
                     vp_sched!("disk.get.readfail");
-                    if let Ok(mut index) = self.index.write() {
-                        index.remove(key);
-                        self.entry_count.fetch_sub(1, Ordering::Relaxed);
-                        self.disk_usage
-                            .fetch_sub(entry.size_bytes as u64, Ordering::Relaxed);
-                    }
+                    self.drop_entry_if(key, false, same_entry);
 
                     self.metrics.record_get(false, start_time.elapsed());
                     Err(e)
@@ -697,7 +738,10 @@ impl<K: CacheKey + 'static> AsyncCache<K> for DiskCache<K> {
                         };
 
                         vp_sched!("disk.get.fallback.index");
-                        if let Ok(mut index) = self.index.write() {
+                        if let Ok(mut index) = self.index.write()
+                            && !index.contains_key(key)
+                        {
+                            // (a concurrent put may have indexed the key in the meantime)
                             index.insert(key.clone(), entry);
                             self.entry_count.fetch_add(1, Ordering::Relaxed);
                             self.disk_usage
@@ -737,16 +781,25 @@ impl<K: CacheKey + 'static> AsyncCache<K> for DiskCache<K> {
         let entry = DiskCacheEntry::new(file_path.clone(), size_bytes, Some(ttl));
 
         // Write data to disk, together with the expiry time
-        self.write_file(&file_path, &value, entry.expires_at)
+        let temp_path = self
+            .write_temp_file(&file_path, &value, entry.expires_at)
             .await?;
 
-        // Update index
+        // Publish the file and update the index in one step: readers look an entry up
+        // and open its file under the index lock, so they never pair the entry of one
+        // put with the file of another.
         vp_sched!("disk.put.index");
         {
-            let mut index = self
-                .index
-                .write()
-                .map_err(|_| CacheError::LockTimeout("index write lock".to_string()))?;
+            let Ok(mut index) = self.index.write() else {
+                let _ = fs::remove_file(&temp_path);
+                return Err(CacheError::LockTimeout("index write lock".to_string()));
+            };
+
+            // Atomic rename
+            if let Err(e) = fs::rename(&temp_path, &file_path) {
+                let _ = fs::remove_file(&temp_path);
+                return Err(CacheError::Io(e));
+            }
 
             if let Some(old_entry) = index.insert(key, entry) {
                 // Updating existing entry - adjust disk usage
@@ -833,11 +886,14 @@ impl<K: CacheKey + 'static> AsyncCache<K> for DiskCache<K> {
         }
 
         index.clear();
+
+        // The counters describe the index: reset them while it is still locked, so that
+        // a put that indexes an entry right after the clear is not wiped from the books
+        self.entry_count.store(0, Ordering::Relaxed);
+        self.disk_usage.store(0, Ordering::Relaxed);
         drop(index); // Release lock early to reduce contention
 
         vp_sched!("disk.clear.counters");
-        self.entry_count.store(0, Ordering::Relaxed);
-        self.disk_usage.store(0, Ordering::Relaxed);
         self.metrics.reset();
 
         // Also clean up any remaining files and subdirectories
